@@ -35,7 +35,10 @@ RULE = ("corpus witness w11, then sorted non-overlapping list pairs on an intege
         "thorough), seeded random sorted non-overlapping ms-aligned lists up to 12 a side, a "
         "shared-data stream, an out-of-domain stream (correspondence only) and _split_event edge "
         "cases; non-trivial = distinct canonical case in which some list-one and list-two event "
-        "overlap for a positive time or touch (the overlap/tie branches of the loop are exercised)")
+        "overlap for a positive time or touch (the overlap/tie branches of the loop are exercised)"
+        "; round 3 (harness/c15_hist.py): random pairs through the registered query function and a query2 statement; call sequences "
+        "in one process on live lists (the same / ==-equal with other ids and look-alike data / one list replaced by a twin / "
+        "edited in between / earlier results overwritten), every call judged alone with typed equality; two lists of >= 10 001 events")
 
 ERRCODE = {"ParseError": 1, "InterpretError": 2, "FunctionError": 3, "KeyError": 4, "ValueError": 5,
            "IndexError": 6, "AttributeError": 7, "TypeError": 8, "IntegrityError": 9}
